@@ -286,9 +286,13 @@ def parse_rvalue(s):
             fields.append((k.strip(), parse_operand(v)))
         return ("struct", m.group(1), fields)
     # Path::Variant(args) / Path::Variant / Struct(args)
-    m = re.fullmatch(r"(.+?)\((.*)\)", s, flags=re.S)
-    if m and balanced(m.group(1)) and looks_like_path(m.group(1)):
-        return ("adt", m.group(1).strip(), [parse_operand(x) for x in split_top(m.group(2))])
+    if s.endswith(")"):
+        try:
+            k = match_open_from_end(s)
+        except ValueError:
+            k = -1
+        if k > 0 and looks_like_path(s[:k]):
+            return ("adt", s[:k].strip(), [parse_operand(x) for x in split_top(s[k + 1:-1])])
     if looks_like_path(s):
         return ("adt", s, [])
     return ("unsupported", s)
